@@ -636,3 +636,178 @@ impl tudp__ClientCodec {
             }
         }
     }
+
+//@@ octo-squirrel/src/config.rs:18-30  enum Mode  sha=957f62c1c01193ba
+#[derive(Clone, Copy, PartialEq)]
+pub enum cfg__Mode {
+    Tcp,
+    Udp,
+    TcpAndUdp,
+    Quic,
+    TcpAndQuic,
+}
+spec fn serde_names__Mode(v: cfg__Mode) -> Seq<Seq<char>> {
+    match v {
+        cfg__Mode::Tcp => seq!["tcp"@],
+        cfg__Mode::Udp => seq!["udp"@],
+        cfg__Mode::TcpAndUdp => seq!["tcp_and_udp"@],
+        cfg__Mode::Quic => seq!["quic"@],
+        cfg__Mode::TcpAndQuic => seq!["tcp_and_quic"@],
+    }
+}
+spec fn serde_other__Mode(v: cfg__Mode) -> bool {
+    match v {
+        cfg__Mode::Tcp => false,
+        cfg__Mode::Udp => false,
+        cfg__Mode::TcpAndUdp => false,
+        cfg__Mode::Quic => false,
+        cfg__Mode::TcpAndQuic => false,
+    }
+}
+
+//@@ octo-squirrel/src/config.rs:32-44  impl Mode  sha=211fcf0f0c602cbb
+impl cfg__Mode {
+    fn enable_tcp(&self) -> bool {
+        matches!(self, Self::Tcp | Self::TcpAndUdp | Self::TcpAndQuic)
+    }
+
+    fn enable_udp(&self) -> bool {
+        matches!(self, Self::Udp | Self::TcpAndUdp)
+    }
+
+    fn enable_quic(&self) -> bool {
+        matches!(self, Self::Quic | Self::TcpAndQuic)
+    }
+}
+
+//@@ octo-squirrel/src/protocol.rs:14-20  enum Protocol  sha=f4fd8332bf4085d1
+#[derive(PartialEq, Clone, Copy)]
+pub enum Protocol {
+    Shadowsocks,
+    VMess,
+    Trojan,
+}
+spec fn serde_names__Protocol(v: Protocol) -> Seq<Seq<char>> {
+    match v {
+        Protocol::Shadowsocks => seq!["shadowsocks"@],
+        Protocol::VMess => seq!["vmess"@],
+        Protocol::Trojan => seq!["trojan"@],
+    }
+}
+spec fn serde_other__Protocol(v: Protocol) -> bool {
+    match v {
+        Protocol::Shadowsocks => false,
+        Protocol::VMess => false,
+        Protocol::Trojan => false,
+    }
+}
+
+//@@ octo-squirrel/src/codec/aead.rs:124-142  enum CipherKind  sha=0afd87d0c4335287
+#[derive(Default, Clone, Copy, PartialEq, Eq)]
+pub enum cfgk__CipherKind {
+    Aes128Gcm,
+    Aes256Gcm,
+    ChaCha20Poly1305,
+    Aead2022Blake3Aes128Gcm,
+    Aead2022Blake3Aes256Gcm,
+    Aead2022Blake3ChaCha8Poly1305,
+    Aead2022Blake3ChaCha20Poly1305,
+    #[default]
+    Unknown,
+}
+spec fn serde_names__CipherKind(v: cfgk__CipherKind) -> Seq<Seq<char>> {
+    match v {
+        cfgk__CipherKind::Aes128Gcm => seq!["aes-128-gcm"@],
+        cfgk__CipherKind::Aes256Gcm => seq!["aes-256-gcm"@],
+        cfgk__CipherKind::ChaCha20Poly1305 => seq!["chacha20-poly1305"@, "chacha20-ietf-poly1305"@],
+        cfgk__CipherKind::Aead2022Blake3Aes128Gcm => seq!["2022-blake3-aes-128-gcm"@],
+        cfgk__CipherKind::Aead2022Blake3Aes256Gcm => seq!["2022-blake3-aes-256-gcm"@],
+        cfgk__CipherKind::Aead2022Blake3ChaCha8Poly1305 => seq!["2022-blake3-chacha8-poly1305"@],
+        cfgk__CipherKind::Aead2022Blake3ChaCha20Poly1305 => seq!["2022-blake3-chacha20-poly1305"@],
+        cfgk__CipherKind::Unknown => seq!["Unknown"@],
+    }
+}
+spec fn serde_other__CipherKind(v: cfgk__CipherKind) -> bool {
+    match v {
+        cfgk__CipherKind::Aes128Gcm => false,
+        cfgk__CipherKind::Aes256Gcm => false,
+        cfgk__CipherKind::ChaCha20Poly1305 => false,
+        cfgk__CipherKind::Aead2022Blake3Aes128Gcm => false,
+        cfgk__CipherKind::Aead2022Blake3Aes256Gcm => false,
+        cfgk__CipherKind::Aead2022Blake3ChaCha8Poly1305 => false,
+        cfgk__CipherKind::Aead2022Blake3ChaCha20Poly1305 => false,
+        cfgk__CipherKind::Unknown => false,
+    }
+}
+
+//@@ octo-squirrel/src/config.rs:64-84  struct ServerConfig  sha=4a1981ff06f0d60b
+pub struct ServerConfig<S: Clone + Default> {
+    pub host: String,
+    pub port: u16,
+    pub mode: cfg__Mode,
+    pub password: String,
+    pub protocol: Protocol,
+    pub cipher: cfgk__CipherKind,
+    pub ssl: Option<S>,
+    pub ws: Option<WebSocketConfig>,
+    pub quic: Option<S>,
+    pub user: Vec<User>,
+    marker: PhantomData<S>,
+}
+
+//@@ octo-squirrel/src/config.rs:92-98  struct WebSocketConfig  sha=f6c7c5e2c14b9f62
+pub struct WebSocketConfig {
+    pub header: HashMap<String, String>,
+    pub path: String,
+}
+
+//@@ octo-squirrel/src/config.rs:100-104  struct User  sha=bb2d5e07d1c8ea18
+pub struct User {
+    pub name: String,
+    pub password: String,
+}
+
+//@@ octo-squirrel-server/src/server/config.rs:9-17  struct SslConfig  sha=e1273042d9ebfa96
+#[derive(Default, Clone)]
+pub struct SslConfig {
+    pub certificate_file: String,
+    pub key_file: String,
+    pub server_name: String,
+}
+
+//@@ octo-squirrel-server/src/server/trojan.rs:27-32  fn new_codec  sha=617103c6dd0c7af4
+fn new_codec(config: &ServerConfig<SslConfig>) -> anyhow::Result<ServerCodec> {
+    let mut hasher = Sha224::new();
+    hasher.update(config.password.as_bytes());
+    let key = hasher.finalize().into();
+    Ok(ServerCodec { key, state: tsrv__CodecState::Header })
+}
+
+//@@ octo-squirrel-client/src/client/trojan.rs:21-23  mod tcp / fn new_codec  sha=e3d1947347924cdf
+fn ttcp__new_codec(addr: &Address, password: String) -> anyhow::Result<ttcp__ClientCodec> {
+        Ok(ttcp__ClientCodec::new(password.as_bytes(), Socks5CommandType::Connect as u8, addr.clone()))
+    }
+
+//@@ octo-squirrel-client/src/client/trojan.rs:32-41  mod tcp / impl ClientCodec  sha=17df0e32247b70ad
+impl ttcp__ClientCodec {
+        fn new(password: &[u8], command: u8, address: Address) -> Self {
+            let mut hasher = Sha224::new();
+            hasher.update(password);
+            let hash: [u8; 28] = hasher.finalize().into();
+            let mut key: [u8; 56] = [0; 56];
+            key.copy_from_slice(hex__encode(&hash).as_bytes());
+            Self { key, command, address, status: tcli__CodecState::Header }
+        }
+    }
+
+//@@ octo-squirrel-client/src/client/trojan.rs:147-156  mod udp / impl ClientCodec  sha=17df0e32247b70ad
+impl tudp__ClientCodec {
+        fn new(password: &[u8], command: u8, address: Address) -> Self {
+            let mut hasher = Sha224::new();
+            hasher.update(password);
+            let hash: [u8; 28] = hasher.finalize().into();
+            let mut key: [u8; 56] = [0; 56];
+            key.copy_from_slice(hex__encode(&hash).as_bytes());
+            Self { key, command, address, status: tcli__CodecState::Header }
+        }
+    }
